@@ -116,7 +116,7 @@ func init() {
 			"the HTML parser (golang.org/x/net/html) is trusted: the oracle first checks that the parsed DOM equals the generator's tree and declares the case inconclusive otherwise",
 			"the cascade and computed values other than display/float/position are not judged here (C03/C04); every element is styled through one id selector",
 			"out-of-flow boxes are recognised from the box's own computed float/position",
-			"documents containing a known deviation (flex container with a table-internal child; floated/absolutely positioned/root inline-table, inline-flex, inline-grid) are outside the workload, see notes/C09.md",
+			"a table-internal child of a flex container is accepted either blockified (css-flexbox-1 §4) or, as webrender does, kept inside an anonymous table that is the flex item",
 			"run-in, ruby, display:contents, running() and footnotes are not generated",
 		},
 		Exhaustive: func(tier string) bool { return false },
@@ -129,11 +129,6 @@ func check(raw json.RawMessage) fw.Result {
 	var res fw.Result
 	if err := json.Unmarshal(raw, &in); err != nil || in.Root == nil {
 		return fw.Result{Verdict: fw.Inconclusive, Msg: fmt.Sprint("bad input: ", err)}
-	}
-	if why := knownDefect(in.Root); why != "" && !in.NoGuard {
-		res.Verdict = fw.Skip
-		res.Count("skipped_known_defect_domain", 1)
-		return res
 	}
 	wr.Quiet()
 	b, err := buildBoxes(in.HTML)
